@@ -640,6 +640,24 @@ def r9(ctx, rule='C01.R9'):
     ctx.check(bool(fst) and cmp_id, rule, 'group::scan_files|redirected-output-not-scanned', (fst[0][1].where() if fst else sc.where()), 'scan_files drops the file that the standard output is redirected to (compared by file identifier)',
               'only the path given with -o is kept out of the scan: with `cd d; fclones group . --min 0 > dupes.txt` the shell creates dupes.txt before fclones starts, it stays empty until the report is '
               'written at the very end, and the report lists dupes.txt itself as a 0 B duplicate of the empty files (or as a unique file with --unique)')
+    # ... under every name it has: the -o file too is told by its identifier (a hard link to it, or a reported symbolic link, has another path)
+    def about_output(x, c):
+        if any('output' in backslice(x, [a]).field_names() or any(n == 'output' for _, n in backslice(x, [a]).upvars) for a in c.args):
+            return True
+        # inside a closure applied to config.output: `config.output.as_ref().and_then(|p| FileId::new(..))`
+        cr = closure_creation(lib, x.path) if x.kind == 'closure' or '{closure' in x.path else None
+        if cr:
+            par, _, st = cr
+            fl = forward_locals(par, st['p'][0]) | {st['p'][0]}
+            for k in par.calls(r'Option<.*>::(and_then|map)$|Option::<T>::(and_then|map)$'):
+                if any(op_local(a) in fl for a in k.args[1:]) and 'output' in backslice(par, [k.args[0]]).field_names():
+                    return True
+        return False
+    oid = [(x, c) for x in bodies for c in x.calls(r'^file::FileId::new$|FileMetadata::new$|^std::fs::metadata$|FileId::from_metadata$') if about_output(x, c)]
+    ctx.check(bool(oid) and cmp_id, rule, 'group::scan_files|output-identified-by-file-id', (oid[0][1].where() if oid else sc.where()), 'the -o file is recognised by its file identifier, like the redirected one',
+              'the -o file is kept out of the scan by comparing paths, the redirected one by comparing file identifiers: a second name of the report file in the scanned tree - a hard link (`ln report.txt '
+              'latest.txt`) or, with --symbolic-links, a link to it - is empty at scan time and lands in the group of the empty files of the very report that is written into it; `-o FILE` and '
+              '`> FILE` then describe different groups of the same tree')
     ctx.check(ok, rule, 'group::scan_files|output-not-scanned', sc.where(), 'scan_files drops the path equal to config.output',
               'run_group creates (truncates) the report file before group_files scans the tree, and nothing keeps the scan from picking it up: with `cd d; fclones group . --min 0 -o report.txt` the '
               'report lists report.txt itself as a 0-byte duplicate of the empty files, while it is hundreds of bytes long')
@@ -831,21 +849,62 @@ def r13(ctx):
     if not hf:
         ctx.missing(rule, 'hash_fn invocation in the task', task.where())
         return
-    rt = [c for c in task.calls(r'Vec<.*>::retain$|Vec::<T, A>::retain$|Iterator::filter$')]
-    ok = False
-    where = hf[0].where()
-    for c in rt:
-        l = op_local(c.args[-1])
-        cp = lib.closure_of_type(task.local_ty(l)) if l is not None else None
-        cb = lib.body(cp) if cp else None
-        if cb is None:
-            continue
+    SEL = r'Vec<.*>::retain$|Vec::<T, A>::retain$|Iterator::(filter|partition)$'
+    def predicate_body(x, c):
+        """the closure or the function handed to retain / filter / partition"""
+        a = c.args[-1]
+        k = op_const(a)
+        if isinstance(k, dict) and k.get('fn'):
+            return lib.body(k['fn'])
+        l = op_local(a)
+        cp = lib.closure_of_type(x.local_ty(l)) if l is not None else None
+        return lib.body(cp) if cp else None
+    def compares_identity(cb):
         ids = cb.calls(r'^file::FileId::new$|FileMetadata::new$|^std::fs::metadata$')
         reads_id = any('id' in place_fields(pl) for blk in cb.blocks for st in blk['stmts'] for pl in rvalue_places(st['rv'])) or \
             any('id' in backslice(cb, [a]).field_names() for k in cb.calls(r'PartialEq.*>::(eq|ne)$') for a in k.args)
+        if not (ids and reads_id):
+            # one level down: the predicate applies the test to the members of a group (Iterator::all / any over the files)
+            for cp2 in lib.closures_of(cb.path, recursive=False):
+                if compares_identity(lib.body(cp2)):
+                    return True
+        return bool(ids and reads_id)
+    rt = [c for c in task.calls(SEL)]
+    ok = False
+    where = hf[0].where()
+    for c in rt:
+        cb = predicate_body(task, c)
+        if cb is None:
+            continue
         # (it sits under `if fg.len() > 1`: a single path shares nothing) - it precedes the hashing, it need not dominate it
-        if ids and reads_id and hf[0].bb in task.reachable(c.bb) and c.bb not in task.reachable(hf[0].bb):
+        if compares_identity(cb) and hf[0].bb in task.reachable(c.bb) and c.bb not in task.reachable(hf[0].bb):
             ok, where = True, c.where()
+    # a path that fails the test still exists, is readable and was selected by the scan: it is hashed as the file it is now (or at least reported), not dropped
+    sel_ok = [c for c in rt if predicate_body(task, c) is not None and compares_identity(predicate_body(task, c))]
+    kept = any(c.matches(r'::partition$') for c in sel_ok) and len(hf) >= 2
+    warned = bool(task.calls(r'::warn$|::err$')) or any(predicate_body(task, c).calls(r'::warn$|::err$') for c in sel_ok)
+    if sel_ok:
+        ctx.check(kept or warned, rule, task.path + '|replaced-path-not-dropped', sel_ok[0].where(), 'the paths that lead to another file now are hashed on their own (second invocation of the hash function)',
+                  'a path that was re-created since the scan (atomic save: write a new file, rename it over the name) is removed from the work item without a word and never hashed: it exists, is readable, '
+                  'was selected by the scan and may be byte-identical to the others - the report lists {a, c} and no message mentions b')
+    # the groups that skip the hashing altogether (all their paths are one file: the pre-filter of the stages asks for unique_count() > 1) are
+    # the purest case of "never looked at again": they are examined too - after the hashing, close to the report - and regrouped when a path has moved on
+    core = rehash_core(lib)
+    passed_ok, pwhere = False, core.where() if core is not None else '-'
+    if core is not None:
+        parts = core.calls(r'Iterator::partition$')
+        first = [c for c in parts if not compares_identity(predicate_body(core, c) or core)] if parts else []
+        for c in parts:
+            pb = predicate_body(core, c)
+            if pb is not None and pb.path != core.path and compares_identity(pb):
+                # what fails the test is hashed after all: it reaches a call of the regrouping machinery
+                again = [k for k in core.calls(rehash_rx(lib)) if k.bb in core.reachable(c.bb)]
+                if again or (first and c.bb not in core.reachable(first[0].bb)):
+                    passed_ok, pwhere = True, c.where()
+    ctx.check(passed_ok, rule, (core.path if core else 'group::rehash') + '|passed-groups-rechecked', pwhere,
+              'the groups passed on without hashing (all paths one file) are examined too: the paths that lead elsewhere now are regrouped by what they contain',
+              'a group whose paths were all one (device, inode) at scan time fails the pre-filter of every stage (unique_count() > 1) and is handed on untouched - nobody opens or stats any of its paths '
+              'again: `group -H` reports t/a and t/b as identical (hash 0) although t/b was replaced by another file right after the scan, and `link` / `remove` then act on that claim')
     ctx.check(ok, rule, task.path + '|identity-rechecked', where, 'before one path is hashed for the others, the members of the inode group whose path now leads to another file are left out',
               'the paths that had one (device, inode) when they were scanned share one hash for ever: only the first path is opened, the others are never looked at again. When a hard-linked name is '
               'replaced by "write a new file, rename it over the name" (editors, rsync, package managers) between the scan and the hashing - or between two stages - the replaced name is still '
